@@ -98,6 +98,9 @@ pub enum DtSel {
     Sym(u64, u64),
     /// one of {0, 59, 60, 61, 86400} by control choice
     Boundary,
+    /// a concrete span in nanoseconds (sub-second block times); the reward books become one-sided
+    /// (upper bound with the span rounded up), see `Op::Advance`
+    Nanos(u64),
 }
 
 pub const P_BOUNDARY: [u128; 7] = [0, 1, 333_333_333_333_333_333, E18 / 2, 999_998_999_999_999_999, E18, E18 + E18 / 2];
@@ -579,7 +582,18 @@ impl Stk {
                 }
             }
             Op::Advance { dt } => {
+                let mut nanos: Option<u64> = None;
                 let dtv: U64 = match dt {
+                    DtSel::Nanos(x) => {
+                        nanos = Some(x);
+                        for d in 0..2 {
+                            for vv in 0..2 {
+                                self.lower_void[d][vv] = true;
+                            }
+                        }
+                        // the reference's books count the span rounded up to whole seconds
+                        u64_of((x + 999_999_999) / 1_000_000_000)
+                    }
                     DtSel::Fixed(x) => u64_of(x),
                     DtSel::Sym(lo, hi) => sym_u64(&format!("dt{}", n), lo, hi),
                     DtSel::Boundary => u64_of(DT_BOUNDARY[choose(DT_BOUNDARY.len())]),
@@ -587,7 +601,10 @@ impl Stk {
                 note(format!("#{} advance {}", n, show(v64(dtv))));
                 let r = catch(|| {
                     self.app.update_block(|b| {
-                        b.time = b.time.plus_seconds(dtv);
+                        b.time = match nanos {
+                            Some(x) => b.time.plus_nanos(x),
+                            None => b.time.plus_seconds(dtv),
+                        };
                         b.height += 1;
                     })
                 });
@@ -608,7 +625,10 @@ impl Stk {
                         self.acc_lo[d][vv] = add(self.acc_lo[d][vv], inc);
                     }
                 }
-                self.now = add(self.now, mul(v64(dtv), k(E9)));
+                self.now = match nanos {
+                    Some(x) => add(self.now, k(x as u128)),
+                    None => add(self.now, mul(v64(dtv), k(E9))),
+                };
                 // matured unbondings are paid now: exactly once, in full (as slashed), not before
                 let mut rest = vec![];
                 let unb = std::mem::take(&mut self.unb);
